@@ -374,6 +374,7 @@ def short(s, n=160):
 
 
 def run(ctx):
+    dstate0 = dialect_class_state()      # before the first call of this process (a renderer built earlier would already have written)
     thorough = ctx.tier == 'thorough'
     rng = random.Random(ctx.seed + 20)
     # ---- design
@@ -503,7 +504,6 @@ def run(ctx):
 
     # ---- (b) histories and (c) configurations against fresh processes
     extra = corpus_calls(2000 if thorough else 300) + plan_catalog_calls(4000 if thorough else 500, rng)
-    dstate0 = dialect_class_state()
     canon = {'items': [['c%d' % i, list(c)] for i, c in enumerate(calls)] +
                       [['x%d' % i, list(c)] for i, c in enumerate(extra)]}
     base = fresh_process(canon, 0)
